@@ -6,7 +6,7 @@ Import ListNotations.
 Local Open Scope N_scope.
 
 (* For EVERY text s (any list of code points, any length): the scanner model — rules regenerated from
-   _uscan.re, re2c longest-match/first-rule semantics, hand-transcribed actions, 32 NUL sentinels, fuel
+   _uscan.re, re2c longest-match/first-rule semantics, hand-transcribed actions, the NUL sentinels of utoken.scan, fuel
    length s + 1 — terminates normally (neither out of fuel nor stuck), and with s' = the part of s
    before the first NUL, its token spans tile s':
        s' = g0 ++ w1 ++ g1 ++ ... ++ wn ++ gn,   token i = (offset of wi, length wi),  wi non-empty,
@@ -37,13 +37,15 @@ Print Assumptions C10_tiling_consequences.
    every rule is non-nullable and either avoids NUL or is a single-character class; the U+EBAD rule is
    exactly "\XEBAD", the end rule exactly "\000", the break rule is <char> <non-nullable> and avoids NUL;
    the main block has no `goto not_bol`; `.`, "\n" (main) and `[^]` (bol) exist, so some rule always
-   applies; at a NUL the bol block falls through and the main block ends the scan. *)
+   applies; at a NUL the bol block falls through and the main block ends the scan; utoken.scan appends
+   at least one NUL sentinel (the count is read from utoken.py). *)
 Theorem C10_rule_table_obligations :
   (forallb rule_ok bol_rules = true /\ forallb rule_ok main_rules = true)
   /\ forallb (fun ra => negb (is_goto (snd ra))) main_rules = true
   /\ (has_rule re_dot main_rules = true /\ has_rule (chr 10) main_rules = true /\ has_rule re_any bol_rules = true)
-  /\ (best_match bol_rules [0] = Some (A_goto_notbol, 1%nat) /\ best_match main_rules [0] = Some (A_end, 1%nat)).
-Proof. exact (conj all_rules_ok (conj main_no_goto (conj fallback_total at_nul))). Qed.
+  /\ (best_match bol_rules [0] = Some (A_goto_notbol, 1%nat) /\ best_match main_rules [0] = Some (A_end, 1%nat))
+  /\ (exists pad, sentinels = 0 :: pad).
+Proof. exact (conj all_rules_ok (conj main_no_goto (conj fallback_total (conj at_nul sentinels_nonempty)))). Qed.
 Print Assumptions C10_rule_table_obligations.
 
 (* The derivative matcher is correct w.r.t. the declarative semantics: a reported length is a longest
